@@ -801,6 +801,8 @@ theorem readBody_isOk (F : NcFile) (P : Pre) (hP : preScan patched F = .ok P)
       unfold fieldStep
       split
       · exact ⟨_, rfl⟩
+      split
+      · exact ⟨_, rfl⟩
       · obtain ⟨r, hr⟩ := createField_isOk F P acc.2 vv (hu vv hvv) hsh (hg vv hvv)
         simp only [hr]
         exact ⟨_, rfl⟩)
@@ -866,5 +868,78 @@ theorem checkAncillary_entry (F : NcFile) (P : Pre) (v : String) (D : List Strin
     by_cases hsub : dimsSubset patched nv (applyComp P.comp (rawDims nv)) D = true
     · simp [hsub]
     · simp [hsub]
+
+end Cfdm.RefCheck
+
+namespace Cfdm.RefCheck
+
+/-! ### Rejected tokens are not referenced; unreferenced variables keep their field -/
+
+theorem auxToken_missing (F : NcFile) (P : Pre) (v : String) (D : List String) (s : FSt) (tok : String)
+    (hD : D.contains tok = false) (hv : F.var? tok = none) :
+    auxToken patched F P v D s tok = .ok (s.add [] [⟨tok, "coordinates"⟩, ⟨tok, "coordinates"⟩]) := by
+  unfold auxToken
+  simp only [hD, Bool.false_eq_true, ↓reduceIte, hv]
+
+theorem auxToken_foreign (F : NcFile) (P : Pre) (v : String) (D : List String) (s : FSt) (tok : String) (cv : NcVar)
+    (hD : D.contains tok = false) (hv : F.var? tok = some cv)
+    (hf : (applyComp P.comp (rawDims cv)).all D.contains = false) :
+    auxToken patched F P v D s tok = .ok (s.add [] [⟨tok, "coordinates"⟩]) := by
+  unfold auxToken
+  simp only [hD, Bool.false_eq_true, ↓reduceIte, hv, ncdims_of_var P hv, bind, Except.bind, dimsSubset_patched, hf,
+    Bool.not_false, pure, Except.pure]
+
+theorem mem_insertSortedS {x y : String} : ∀ {l : List String}, y ∈ insertSortedS x l → y = x ∨ y ∈ l
+  | [], h => by simp [insertSortedS] at h; exact Or.inl h
+  | z :: zs, h => by
+    simp only [insertSortedS] at h
+    split at h
+    · rcases List.mem_cons.mp h with e | e
+      · exact Or.inl e
+      · exact Or.inr e
+    · rcases List.mem_cons.mp h with e | e
+      · exact Or.inr (by simp [e])
+      · rcases mem_insertSortedS e with e' | e'
+        · exact Or.inl e'
+        · exact Or.inr (by simp [e'])
+
+theorem mem_sortS {y : String} : ∀ {l : List String}, y ∈ sortS l → y ∈ l
+  | [], h => by simp [sortS] at h
+  | x :: xs, h => by
+    have h' : y ∈ insertSortedS x (sortS xs) := h
+    rcases mem_insertSortedS h' with e | e
+    · simp [e]
+    · exact List.mem_cons_of_mem _ (mem_sortS e)
+
+theorem stillReferenced_sub (rs : List (String × FieldOut)) :
+    ∀ x ∈ stillReferenced rs, (references rs).any (fun p => p.1 == x) = true := by
+  unfold stillReferenced
+  simp only
+  intro x hx
+  have hsub := foldl_inv (stillStep (references rs))
+    (fun cur => ∀ x ∈ cur, x ∈ sortS ((rs.map (·.1)).filter (fun n => (references rs).any (fun p => p.1 == n))))
+    (by
+      intro cur n hcur x hx
+      unfold stillStep at hx
+      split at hx
+      · exact hcur x (List.mem_filter.mp hx).1
+      · exact hcur x hx) _ _ (fun x hx => hx) x hx
+  exact (List.mem_filter.mp (mem_sortS hsub)).2
+
+/-- A created field whose variable no attached construct references is returned. -/
+theorem selectFields_unreferenced (rs : List (String × FieldOut)) (r : String × FieldOut) (hr : r ∈ rs)
+    (hun : ∀ p ∈ references rs, p.1 ≠ r.1) : r ∈ selectFields rs := by
+  unfold selectFields
+  apply List.mem_filter.mpr
+  refine ⟨hr, ?_⟩
+  cases hc : (stillReferenced rs).contains r.1 with
+  | false => rfl
+  | true =>
+    exfalso
+    have hmem : r.1 ∈ stillReferenced rs := by simpa using hc
+    have h2 := stillReferenced_sub rs r.1 hmem
+    simp only [List.any_eq_true, beq_iff_eq] at h2
+    obtain ⟨p, hp, hpe⟩ := h2
+    exact hun p hp hpe
 
 end Cfdm.RefCheck
